@@ -265,10 +265,14 @@ def run_cases(cases, tag):
                 soft.append(("model self-check failed (model error or model differs from its specification): " + b[-80:],
                              {"correspondence": "ocaml/C05_driver.ml", "case": c, "model": b, "impl": a}))
             continue
+        if a != b and canon(c, a) == canon(c, b):
+            # the model runs C09's faithful loser-tree model, so normally even the choice among equivalent elements of
+            # the unstable variants agrees; the property leaves that choice open, so this is counted, not reported
+            counters["tie_choice_differs"] = counters.get("tie_choice_differs", 0) + 1
         if canon(c, a) != canon(c, b):
             if len(soft) < 3:
                 soft.append(("implementation differs from the proven model (result itself satisfies the property): impl=%s model=%s" % (a[:120], b[:120]),
-                             {"correspondence": "harness/C05/mwm_harness.cpp vs extracted model", "case": c, "impl": a, "model": b}))
+                             {"correspondence": "harness/C05/mwm_harness.cpp vs extracted model (C09 loser trees)", "case": c, "impl": a, "model": b}))
     return impl
 
 exe, log = ck.build_cpp("c05_harness", ["harness/C05/mwm_harness.cpp"])
@@ -279,7 +283,7 @@ if drv is None:
     def fallback_driver():
         coq = os.path.join(verif.VERIF, "coq")
         with verif.Lock(os.path.join(coq, ".lock")):
-            rc, out = verif.sh(["make", "-j4", "C05/Model.vo"], cwd=coq, timeout=900)
+            rc, out = verif.sh(["make", "-j4", "C05/C09Model.vo"], cwd=coq, timeout=900)
             if rc != 0: return None, out
             rc, out = verif.sh(["coqc", "-Q", ".", "TLXV", "Extract_C05.v"], cwd=coq, timeout=900)
             if rc != 0: return None, out
@@ -325,11 +329,12 @@ ck.finish({
     "evaluations": counters["evaluations"],
     "distinct_nontrivial": len(distinct),
     "property_verdicts_on_impl": counters["verdicts"],
-    "rule": "cases = (element type, entry point, algorithm, length, sequences[, sentinels]); small inputs (k in 0..9 and 17, six shapes: tiny alphabet, all equal, one dominant sequence, wide keys, many empty sequences, staircase) are run for EVERY length 0..total, medium inputs for three lengths under all 16 algorithm/entry-point combinations; k = 3, 4 tie patterns (sorted words of length <= 2 over 3 keys) for every length through the stable entry points. Each case runs on /repo's entry point (checking iterators, ASan+UBSan) and on the extracted Coq model; lines are compared (fully for stable entry points, keys + returned position otherwise) and the property is decided directly on the implementation's line. non-trivial = k >= 2, at least two non-empty sequences and length > 0; distinct = distinct case text.",
+    "unstable_results_differing_from_c09_backed_model_in_tie_choice_only": counters.get("tie_choice_differs", 0),
+    "rule": "cases = (element type, entry point, algorithm, length, sequences[, sentinels]); small inputs (k in 0..9 and 17, six shapes: tiny alphabet, all equal, one dominant sequence, wide keys, many empty sequences, staircase) are run for EVERY length 0..total, medium inputs for three lengths under all 16 algorithm/entry-point combinations; k = 3, 4 tie patterns (sorted words of length <= 2 over 3 keys) for every length through the stable entry points. Each case runs on /repo's entry point (checking iterators, ASan+UBSan) and on the extracted Coq model; lines are compared (fully for stable entry points, keys + returned position otherwise; the model runs C09's loser-tree model, and the number of unstable results differing from it in the tie choice only is recorded) and the property is decided directly on the implementation's line. non-trivial = k >= 2, at least two non-empty sequences and length > 0; distinct = distinct case text.",
     "samples": samples,
     "input_distribution": hist,
 }, assumptions=[
-    "loser trees enter the model through an interface (winner = live source with minimal head, stable: smallest index among equivalent); the correspondence run uses a reference tournament (C09 verifies the real trees)",
+    "loser trees enter the general theorems through an interface (winner = live source with minimal head, stable: smallest index among equivalent); the interface is instantiated with C09's model of loser_tree.hpp (guarded classes: every input; unguarded classes: under C09's key precondition) and with a reference tournament; the correspondence run executes the C09-backed model (copy classes for I/T, pointer classes for B) and cross-checks it with the reference tournament",
     "std::lower_bound / std::upper_bound / std::copy modelled by their specification",
     "translator: token-level expansion of TLX_MERGE3CASE / TLX_MERGE4CASE / TLX_DECISION definitions and invocations",
     "extraction: ExtrOcamlBasic only; nat/list stay Coq inductives; element comparison is OCaml integer <",
